@@ -72,3 +72,117 @@ def config_snapshot(cfg):
 
 def snapshot_diff(a, b):
     return sorted(k for k in set(a) | set(b) if a.get(k) != b.get(k))
+
+
+# ---------------------------------------------------------------------------
+# import / side-effect guards (C08)
+
+class ImportGuard(object):
+    """
+    Records, while armed, every __import__ call (requested name, caller module,
+    fromlist) through a shim over builtins.__import__, plus audit events
+    (import of uncached modules, open, exec, compile, os.system,
+    subprocess.Popen, socket.connect) raised on the arming thread.
+    """
+    AUDITED = ("import", "open", "exec", "compile", "os.system", "subprocess.Popen", "socket.connect",
+               "socket.bind", "os.exec", "os.spawn", "os.posix_spawn", "ctypes.dlopen")
+    _hook_installed = [False]
+    _active = []
+
+    def __init__(self):
+        self.imports = []
+        self.audit = []
+        self.armed = False
+        self.thread = None
+        self._orig = None
+
+    def install(self):
+        guard = self
+        self._orig = builtins.__import__
+        orig = self._orig
+
+        def __import__(name, globals=None, locals=None, fromlist=(), level=0):
+            if guard.armed and threading.get_ident() == guard.thread:
+                caller = (globals or {}).get("__name__", "?")
+                guard.imports.append((name, caller, tuple(fromlist or ()), level))
+            return orig(name, globals, locals, fromlist, level)
+        builtins.__import__ = __import__
+        ImportGuard._active.append(self)
+        if not ImportGuard._hook_installed[0]:
+            ImportGuard._hook_installed[0] = True
+
+            def hook(event, args):
+                for g in ImportGuard._active:
+                    if g.armed and event in ImportGuard.AUDITED and threading.get_ident() == g.thread:
+                        g.audit.append((event, repr(args[:1])[:120]))
+            sys.addaudithook(hook)
+
+    def uninstall(self):
+        builtins.__import__ = self._orig
+        if self in ImportGuard._active:
+            ImportGuard._active.remove(self)
+
+    def arm(self):
+        self.imports = []
+        self.audit = []
+        self.thread = threading.get_ident()
+        self.modules_before = set(sys.modules)
+        self.armed = True
+
+    def disarm(self):
+        self.armed = False
+        self.new_modules = sorted(set(sys.modules) - self.modules_before)
+        return self.imports, self.audit, self.new_modules
+
+
+CANARY_SRC = '''
+import builtins
+_state = builtins.__dict__.setdefault("_vf_canary_state", {"imports": [], "constructions": []})
+_state["imports"].append(__name__)
+
+
+class Boom(object):
+    def __new__(cls, *args, **kwargs):
+        _state["constructions"].append((__name__, "Boom.__new__", len(args), sorted(kwargs)))
+        return object.__new__(cls)
+
+    def __init__(self, *args, **kwargs):
+        _state["constructions"].append((__name__, "Boom.__init__", len(args), sorted(kwargs)))
+
+
+def factory(*args, **kwargs):
+    _state["constructions"].append((__name__, "factory", len(args), sorted(kwargs)))
+    return 1
+'''
+
+
+class Canaries(object):
+    """Canary modules in a scratch directory on sys.path: importing them or
+    constructing their classes leaves a trace."""
+
+    def __init__(self, names=("vfcanarymod", "vfcanarypkg")):
+        import tempfile
+        self.dir = tempfile.mkdtemp(prefix="vfcanary-")
+        self.names = list(names)
+        for n in self.names:
+            with open(os.path.join(self.dir, n + ".py"), "w") as fh:
+                fh.write(CANARY_SRC)
+        sys.path.insert(0, self.dir)
+        self.state = builtins.__dict__.setdefault("_vf_canary_state", {"imports": [], "constructions": []})
+
+    def reset(self):
+        del self.state["imports"][:]
+        del self.state["constructions"][:]
+        for n in self.names:
+            sys.modules.pop(n, None)
+
+    def trace(self):
+        return list(self.state["imports"]), list(self.state["constructions"])
+
+    def close(self):
+        import shutil
+        if self.dir in sys.path:
+            sys.path.remove(self.dir)
+        for n in self.names:
+            sys.modules.pop(n, None)
+        shutil.rmtree(self.dir, ignore_errors=True)
